@@ -138,8 +138,10 @@ pub fn compute_event(m: &Model, it: &mut Interner, same_as_last: bool) -> Value 
         .spaces
         .iter()
         .map(|s| match p.spaces.get(&s.id) {
-            Some(sp) => json!({"area": qv(sp.area, 1e4, "props.space.area", &mut bad), "hnet": qv(sp.height_net, 1e4, "props.space.hnet", &mut bad)}),
-            None => json!({"area": 0, "hnet": 0}),
+            Some(sp) => json!({"area": qv(sp.area, 1e4, "props.space.area", &mut bad), "hnet": qv(sp.height_net, 1e4, "props.space.hnet", &mut bad),
+                "vnet": qv(sp.volume_net, 1e2, "props.space.vnet", &mut bad), "mult": qv(sp.multiplier, 1e2, "props.space.mult", &mut bad),
+                "height": qv(sp.height, 1e4, "props.space.height", &mut bad)}),
+            None => json!({"area": 0, "hnet": 0, "vnet": 0, "mult": 100, "height": 0}),
         })
         .collect();
     let walls: Vec<Value> = m
